@@ -724,6 +724,8 @@ def _struct_case(arg):
             root = _mk(src)
             f = root.child_from_path(path)
             kind = f.a.__class__.__name__
+            if form != 'copy' and _in_fstring(f):
+                continue    # pure AST / standalone source lose the spelling that a self-documenting `{expr=}` field records
             k = rng.randint(1, 3)
             w = {'op': 'replace-' + form, 'src': src, 'path': _ser_path(path), 'k': k}
             r = None
